@@ -1386,7 +1386,9 @@ class Engine:
         lo = clamp(sl.lower, z3.IntVal(0))
         hi = clamp(sl.upper, n)
         i = z3.Int(fresh_name("i"))
-        return VList(base.elem, z3.Lambda([i], base.arr[i + lo]), z3.If(hi > lo, hi - lo, 0), base.is_str)
+        r = VList(base.elem, z3.Lambda([i], base.arr[i + lo]), z3.If(hi > lo, hi - lo, 0), base.is_str)
+        r.view = (base.arr, lo)      # r[j] is base[j + lo]: consumers (min/max) state their facts over the base indices, which gives usable triggers
+        return r
 
     def list_concat(self, a, b):
         i = z3.Int(fresh_name("i"))
